@@ -10,6 +10,7 @@ import Driver.HLz
 import Driver.HSplitters
 import Driver.HPipe
 import Driver.HReader
+import Driver.HAgc3
 /-!
 `ragc_model`: executes the Lean models behind a one-line-in / one-line-out protocol.
 Every handler returns `none` for a request it does not understand; the reply is then `bad-op`.
@@ -17,7 +18,7 @@ Every handler returns `none` for a request it does not understand; the reply is 
 namespace Driver
 
 def handlers : List (List String → Option String) :=
-  [handleKmer, handleTuple, handleSegment, handleQueue, handleContainer, handleRange, handleColl, handleLz, handleSplitters, handlePipe, handleReader]
+  [handleKmer, handleTuple, handleSegment, handleQueue, handleContainer, handleRange, handleColl, handleLz, handleSplitters, handlePipe, handleReader, handleAgc3]
 
 def dispatch (line : String) : String :=
   let fields := line.trimAscii.toString.splitOn " "
